@@ -1,10 +1,13 @@
 #!/usr/bin/env python3
 """Evaluate seeded defects: for each <dir> (patch.diff, seeded_demo_test.go, meta.json) apply the patch in a scratch
 worktree of /repo HEAD, confirm the demo fails with / passes without the patch, run the property's quick check with
-VERIF_REPO=<worktree> and record whether it raised a VIOLATION.  usage: seedeval.py <srcdir> [ids...]"""
+VERIF_REPO=<worktree> and record whether it raised a VIOLATION.  The checks run from a snapshot copy of /verif (so that
+work on /verif can go on meanwhile and /verif/evidence is not overwritten by runs against a changed tree); results are
+merged into <dir>/meta.json ("evaluation") and seeded/RESULTS.md is regenerated.  usage: seedeval.py <srcdir> [ids...]"""
 import json, os, subprocess, sys, shutil, time
 V = os.path.dirname(os.path.dirname(os.path.abspath(__file__)))
 WT = '/tmp/wt-seed'
+SNAP = '/tmp/verif-snap'
 ENV = dict(os.environ, GOFLAGS='-mod=mod', GOPROXY='off')
 
 def sh(cmd, cwd=None, env=None, timeout=1800):
@@ -19,14 +22,17 @@ def main():
     head = sh('git -C /repo rev-parse HEAD')[1].strip()
     sh('git reset -q --hard && git clean -fdq && git checkout -q --detach %s' % head, cwd=WT)
     results = {}
+    sh('rm -rf %s && mkdir -p %s && rsync -a --exclude .git --exclude findings --exclude seeded %s/ %s/' % (SNAP, SNAP, V, SNAP))
     for d in ids:
         sd = os.path.join(src, d)
         meta = json.load(open(os.path.join(sd, 'meta.json')))
-        prop = meta['property']
+        prop = meta['property'][:3]
         res = {'property': prop, 'summary': meta.get('summary', '')[:200]}
         sh('git reset -q --hard && git clean -fdq', cwd=WT)
         shutil.copy(os.path.join(sd, 'seeded_demo_test.go'), os.path.join(WT, 'seeded_demo_test.go'))
-        rc0, out0 = sh('go test -vet=off -count=1 -run TestSeededDemo . 2>&1 | tail -5', cwd=WT, timeout=900)
+        race = '-race ' if meta.get('demo_needs_race') else ''
+        denv = dict(ENV, CGO_ENABLED='1') if race else ENV
+        rc0, out0 = sh('go test %s-vet=off -count=1 -run TestSeededDemo . 2>&1 | tail -5' % race, cwd=WT, env=denv, timeout=900)
         res['demo_passes_without'] = ('FAIL' not in out0 and 'ok' in out0)
         rc, out = sh('git apply %s 2>&1' % os.path.join(sd, 'patch.diff'), cwd=WT)
         res['applies'] = rc == 0
@@ -35,19 +41,44 @@ def main():
             results[d] = res; print(d, res, flush=True); continue
         rcb, outb = sh('go build ./... && go vet . 2>&1 | tail -3', cwd=WT)
         res['builds'] = rcb == 0
-        rc1, out1 = sh('go test -vet=off -count=1 -run TestSeededDemo . 2>&1 | tail -5', cwd=WT, timeout=900)
+        rc1, out1 = sh('go test %s-vet=off -count=1 -run TestSeededDemo . 2>&1 | tail -5' % race, cwd=WT, env=denv, timeout=900)
         res['demo_fails_with'] = 'FAIL' in out1
         os.remove(os.path.join(WT, 'seeded_demo_test.go'))
         t = time.time()
-        rcc, outc = sh('./check %s --tier quick' % prop, cwd=V, env=dict(os.environ, VERIF_REPO=WT), timeout=1800)
+        rcc, outc = sh('./check %s --tier quick' % prop, cwd=SNAP, env=dict(os.environ, VERIF_REPO=WT), timeout=1800)
         res['check_rc'] = rcc
         res['check_s'] = round(time.time() - t)
         res['caught'] = rcc == 1 and 'VIOLATION property=%s' % prop in outc
         res['check_tail'] = [l[:220] for l in outc.splitlines() if l.startswith('VIOLATION') or l.startswith('INCONCLUSIVE') or 'tier=' in l][:4]
         results[d] = res
         print(d, json.dumps(res), flush=True)
-        sh('rm -f %s/findings/%s-*' % (V, prop))
+        ev = meta.get('evaluation', {})
+        first = ev['first_pass'] if 'first_pass' in ev else res['caught']
+        meta['evaluation'] = {'applied_to': 'scratch worktree of /repo HEAD %s (lib/seedeval.py)' % head[:7],
+                              'demo_fails_with_patch': res['demo_fails_with'], 'demo_passes_without_patch': res['demo_passes_without'],
+                              'check': './check %s --tier quick (VERIF_REPO=<worktree>)' % prop, 'check_exit': rcc, 'caught': res['caught'],
+                              'first_pass': first, 'first_violation': (res['check_tail'] or [''])[0]}
+        json.dump(meta, open(os.path.join(sd, 'meta.json'), 'w'), indent=1)
     sh('git reset -q --hard && git clean -fdq', cwd=WT)
     json.dump(results, open('/tmp/seedeval.json', 'w'), indent=1)
+    sh('rm -rf %s' % SNAP)
+    results_md(src)
+
+
+def results_md(src):
+    rows = []
+    for d in sorted(os.listdir(src)):
+        mp = os.path.join(src, d, 'meta.json')
+        if not os.path.exists(mp):
+            continue
+        m = json.load(open(mp)); e = m.get('evaluation', {})
+        cell = lambda s: str(s).replace('|', '/').replace('\n', ' ')[:160]
+        rows.append('| %s | %s | %s | %s | %s | %s |' % (d, m.get('property'), cell(m.get('summary', '')), cell(m.get('needs', '')),
+                    'yes' if e.get('caught') else ('NO' if 'caught' in e else 'not evaluated'),
+                    'yes' if e.get('first_pass') else ('no (check strengthened)' if e.get('caught') else 'no')))
+    with open(os.path.join(src, 'RESULTS.md'), 'w') as f:
+        f.write('# Seeded changes and the checks that report them\n\nWritten by lib/seedeval.py runs (see DESIGN.md section 13). '
+                '`first pass` = reported by the check as it was before the change was seen.\n\n'
+                '| id | property | change | needs | reported by quick check | first pass |\n|---|---|---|---|---|---|\n' + '\n'.join(rows) + '\n')
 
 main()
